@@ -3,11 +3,12 @@ import RichModel.Lemmas.ConsoleHtml
 import RichModel.Lemmas.ConsoleNest
 import RichModel.Lemmas.ConsoleDoc
 import RichModel.Lemmas.ConsolePrint
+import RichModel.Lemmas.ConsoleFormat
 /-!
 # C15 — recording, capture and export agree with what was written
 
-Property theorems only, 31 (helper lemmas live in `Lemmas/Console`, `Lemmas/Html`, `Lemmas/ConsoleHtml`, `Lemmas/ConsoleNest`,
-`Lemmas/ConsoleDoc`, `Lemmas/ConsolePrint`).  What `print` of plain strings appends to the buffer is derived in
+Property theorems only, 40 (helper lemmas live in `Lemmas/Console`, `Lemmas/Html`, `Lemmas/ConsoleHtml`, `Lemmas/ConsoleNest`,
+`Lemmas/ConsoleDoc`, `Lemmas/ConsolePrint`, `Lemmas/ConsoleFormat`).  What `print` of plain strings appends to the buffer is derived in
 `Model/ConsolePrint.lean` (`print_plain_segments`, `export_text_of_prints`); the default `code_format` is the table
 `Gen/ConsoleHtmlFormat.lean`, regenerated from rich/console.py on every run (`export_html_document_default…`).
 
@@ -253,6 +254,133 @@ theorem export_html_stylesheet (v : Console.Variant) (env : StyleEnv σ) (record
   simp only [exportHtmlParts, Bool.false_eq_true, if_false]
   rw [show htmlSegments v record = segs from rfl, hlook, hnum,
     stylesheet_lines keys (fun k hk => classRules_nonempty env segs k (mem_firstOcc _ k hk)) 1]
+
+/-! ## `code_format` as a string: `str.format` with its error branch (`Model/ConsoleFormat.lean`) -/
+
+/-- **code_format_ok_iff.**  For *any* format string (any characters: single and doubled braces, unknown, numbered or empty
+fields …), `export_html(code_format=fmt)` returns a document exactly when the left-to-right scan of `fmt` reaches its end
+(every `{` opens a field that is closed, every other brace is doubled) and every field is one of `code`, `stylesheet`,
+`foreground`, `background`; the document is then `exportHtml` of `Model/Console` on the parsed template — so every
+theorem of this file about templates (`export_html_document`, `…_decoded`, `export_html_stylesheet`) speaks about format
+*strings*.  The substituted values are not scanned again (they are arguments of `formatTemplate`). -/
+theorem code_format_ok_iff (v : Console.Variant) (env : StyleEnv σ) (inline : Bool) (fmt fg bg : List Char)
+    (record : List (Segment σ)) (s : List Char) :
+    ConsoleFormat.exportHtmlStr v env inline fmt fg bg record = .ok s ↔
+      (ConsoleFormat.scan .lit fmt).2 = .done ∧ ∃ t, ConsoleFormat.toTemplate (ConsoleFormat.scan .lit fmt).1 = some t ∧
+        s = exportHtml v env inline { template := t, foreground := fg, background := bg } record :=
+  ConsoleFormat.formatStr_ok_iff _ fmt s
+
+/-- **code_format_error_branch.**  What `export_html(code_format=fmt)` raises.  `KeyError(n)`: `n` is a field of `fmt`
+that is neither one of the four keywords nor a number, and every field before it is one of the four (the first
+offending field, left to right, decides).  Whatever is raised (or answered), it does not depend on the record, the
+colours or the styles when the format string fails: no value makes a failing format string succeed. -/
+theorem code_format_error_branch (v : Console.Variant) (env : StyleEnv σ) (inline : Bool) (fmt fg bg : List Char)
+    (record : List (Segment σ)) :
+    (∀ n, ConsoleFormat.exportHtmlStr v env inline fmt fg bg record = .error (.keyError n) →
+      ∃ pre post, (ConsoleFormat.scan .lit fmt).1 = pre ++ ConsoleFormat.PItem.field n :: post ∧
+        (∃ t, ConsoleFormat.toTemplate pre = some t) ∧ ConsoleFormat.fieldItem n = none ∧
+        n.all ConsoleFormat.isAsciiDigit = false) ∧
+    (((ConsoleFormat.scan .lit fmt).2 ≠ .done ∨ ConsoleFormat.toTemplate (ConsoleFormat.scan .lit fmt).1 = none) →
+      ∀ (vals : ConsoleFormat.Vals) s, ConsoleFormat.formatStr vals fmt ≠ .ok s) :=
+  ⟨fun n h => ConsoleFormat.fill_keyError _ n _ _ h, fun h vals s => ConsoleFormat.fill_not_ok vals _ _ h s⟩
+
+/-- **code_format_doubled_braces.**  Doubling the braces of any text `s` gives a `code_format` whose document is
+exactly `s`, for every record. -/
+theorem code_format_doubled_braces (v : Console.Variant) (env : StyleEnv σ) (inline : Bool) (s fg bg : List Char)
+    (record : List (Segment σ)) :
+    ConsoleFormat.exportHtmlStr v env inline (ConsoleFormat.doubleBraces s) fg bg record = .ok s :=
+  ConsoleFormat.formatStr_doubleBraces _ s
+
+/-- **code_format_step.**  `export_html(clear, inline_styles, code_format=fmt)` as an operation on the console: it never
+touches the file, the buffer or the capture depth; on a non-recording console it fails with `assert self.record`; it
+clears the record only if `clear` is set *and the format succeeded* — when the format raises (`ValueError`,
+`KeyError`, `IndexError`) the record is exactly what it was, `clear=True` or not; a successful call returns the same
+document with and without `clear`. -/
+theorem code_format_step (v : Console.Variant) (cfg : Config) (env : StyleEnv σ) (st : State σ) (clr inline : Bool)
+    (fmt fg bg : List Char) :
+    let r := ConsoleFormat.stepHtmlStr v cfg env st clr inline fmt fg bg
+    r.1.file = st.file ∧ r.1.buffer = st.buffer ∧ r.1.index = st.index ∧ r.1.marks = st.marks ∧
+    (cfg.record = false → r.2 = .assertionError ∧ r.1.record = st.record) ∧
+    (cfg.record = true →
+      (∀ s, ConsoleFormat.exportHtmlStr v env inline fmt fg bg st.record = .ok s →
+        r.2 = .exported s ∧ r.1.record = (if clr then [] else st.record)) ∧
+      (∀ e, ConsoleFormat.exportHtmlStr v env inline fmt fg bg st.record = .error e →
+        r.2 = .raised e ∧ r.1.record = st.record) ∧
+      (ConsoleFormat.exportHtmlStr v env inline fmt fg bg st.record = .unmodelled →
+        r.2 = .unmodelled ∧ r.1.record = st.record)) := by
+  intro r
+  by_cases hr : cfg.record = true
+  · have hr' : (!cfg.record) = false := by simp [hr]
+    cases hx : ConsoleFormat.exportHtmlStr v env inline fmt fg bg st.record <;>
+      simp [r, ConsoleFormat.stepHtmlStr, hr, hx]
+  · have hr' : cfg.record = false := by simpa using hr
+    simp [r, ConsoleFormat.stepHtmlStr, hr']
+
+/-- **export_html_document_decoded — any template.**  For *any* `code_format` containing `{code}` once (`a`, `b`: the
+template before and after it), with the part before the code ending outside a tag: the whole document with tags removed
+*and entities decoded* is — exactly — the text before the code decoded in the context of what follows, i.e.
+`(stripTags pre).foldr unescStep (exported text ++ decoded text after)`; and when the text before the code contains no
+`&`, it is the text before, then exactly the exported text, then the text after the code decoded on its own — whatever
+entities, `&` or tags the template has after the code.  (`old_amp_before_code_joins`: a template text ending in `&`
+does join with the code.) -/
+theorem export_html_document_decoded [LawfulBEq σ] (v : Console.Variant) (env : StyleEnv σ) (inline : Bool) (o : HtmlOpts)
+    (record : List (Segment σ)) (a b : List TItem) (ht : o.template = a ++ [TItem.code] ++ b)
+    (ha : TItem.code ∉ a) (hb : TItem.code ∉ b) (hm : v.mergeCtl = false) (hsafe : TagSafe v env)
+    (hpre : tagState false (formatTemplate { o with template := a } [] (exportHtmlParts v env inline record).2) = false) :
+    let pre := formatTemplate { o with template := a } [] (exportHtmlParts v env inline record).2
+    let post := formatTemplate { o with template := b } [] (exportHtmlParts v env inline record).2
+    htmlDecode (exportHtml v env inline o record) =
+        (stripTags pre).foldr unescStep (exportPlain record ++ unescape (stripTags post)) ∧
+    ('&' ∉ stripTags pre →
+      htmlDecode (exportHtml v env inline o record) = stripTags pre ++ exportPlain record ++ unescape (stripTags post)) := by
+  intro pre post
+  obtain ⟨_, e2⟩ := export_html_document v env inline o record a b ht ha hb hm hsafe
+  have e := e2 hpre
+  unfold htmlDecode
+  rw [e]
+  exact ⟨ConsoleFormat.unescape_document_exact _ _ _, fun hamp => ConsoleFormat.unescape_document _ _ _ hamp⟩
+
+/-- **export_html_document_format — the document theorem for format strings.**  Let `fmt` be any format string whose scan
+reaches the end with the items `a ++ [{code}] ++ b`, every field of `a` and `b` being `stylesheet`, `foreground` or
+`background` (`ta`, `tb`: the templates they denote, free of `{code}`).  Then `export_html(code_format=fmt)` returns
+`pre ++ code ++ post` with `code` exactly the fragments of `export_html_text`, and — the text before the code ending
+outside a tag and containing no `&` — the whole returned string, tags removed and entities decoded, is the text before
+the code, the exported text, the decoded text after the code. -/
+theorem export_html_document_format [LawfulBEq σ] (v : Console.Variant) (env : StyleEnv σ) (inline : Bool)
+    (fmt fg bg : List Char) (record : List (Segment σ)) (a b : List ConsoleFormat.PItem) (ta tb : List TItem)
+    (hs : ConsoleFormat.scan .lit fmt = (a ++ [ConsoleFormat.PItem.field "code".toList] ++ b, .done))
+    (hta : ConsoleFormat.toTemplate a = some ta) (htb : ConsoleFormat.toTemplate b = some tb)
+    (ha : TItem.code ∉ ta) (hb : TItem.code ∉ tb) (hm : v.mergeCtl = false) (hsafe : TagSafe v env) :
+    let o : HtmlOpts := { template := ta ++ [TItem.code] ++ tb, foreground := fg, background := bg }
+    let pre := formatTemplate { o with template := ta } [] (exportHtmlParts v env inline record).2
+    let post := formatTemplate { o with template := tb } [] (exportHtmlParts v env inline record).2
+    ConsoleFormat.exportHtmlStr v env inline fmt fg bg record =
+        .ok (pre ++ flatFrags (exportHtmlParts v env inline record).1 ++ post) ∧
+    (tagState false pre = false → '&' ∉ stripTags pre →
+      htmlDecode (pre ++ flatFrags (exportHtmlParts v env inline record).1 ++ post) =
+        stripTags pre ++ exportPlain record ++ unescape (stripTags post)) := by
+  intro o pre post
+  have htt : ConsoleFormat.toTemplate (a ++ [ConsoleFormat.PItem.field "code".toList] ++ b) = some (ta ++ [TItem.code] ++ tb) :=
+    ConsoleFormat.toTemplate_append _ _ _ _ (ConsoleFormat.toTemplate_append _ _ _ _ hta rfl) htb
+  have hok : ConsoleFormat.exportHtmlStr v env inline fmt fg bg record = .ok (exportHtml v env inline o record) :=
+    (code_format_ok_iff v env inline fmt fg bg record _).2 ⟨by rw [hs], _, by rw [hs]; exact htt, rfl⟩
+  obtain ⟨e1, _⟩ := export_html_document v env inline o record ta tb rfl ha hb hm hsafe
+  refine ⟨by rw [hok, e1], fun hpre hamp => ?_⟩
+  rw [← e1]
+  exact (export_html_document_decoded v env inline o record ta tb rfl ha hb hm hsafe hpre).2 hamp
+
+/-! ## the time column of `log` -/
+
+/-- **log_time_cells** (`LogRender.__call__`, any number of `log` calls, any displays).  On a console with the time
+column the time cell of a call is blank — as many spaces as the display is long — exactly when its `strftime` display
+equals the display of the *previous* call, and is the display itself otherwise (`prev`: `_last_time` before the first
+call, `none` on a fresh console); without the time column there is no cell. -/
+theorem log_time_cells (prev : Option (List Char)) (ds : List (List Char)) :
+    ConsoleLogTime.logTimeCells true { lastTime := prev } ds =
+      (List.zip (prev :: ds.map some) ds).map (fun p =>
+        if p.1 = some p.2 then some (List.replicate p.2.length ' ') else some p.2) ∧
+    ConsoleLogTime.logTimeCells false { lastTime := prev } ds = ds.map (fun _ => none) :=
+  ⟨ConsoleLogTime.logTimeCells_spec prev ds, ConsoleLogTime.logTimeCells_off _ ds⟩
 
 /-! ## styled export -/
 
@@ -584,6 +712,13 @@ theorem old_simplify_bell_in_html :
       ≠ exportPlain ([{ text := ['\x07'], style := none, control := true }, { text := ['\n'], style := none }] : List (Segment Nat)) := by
   decide
 
+/-- Why `export_html_document_decoded` asks something of the text before `{code}`: with the format string `&{code}` and
+the recorded text `lt;` the document is `&lt;`, which decodes to `<` — not to `&` followed by the exported text. -/
+theorem old_amp_before_code_joins :
+    let rec1 : List (Segment Nat) := [{ text := "lt;".toList, style := none }]
+    ConsoleFormat.exportHtmlStr Console.Variant.repaired wEnv true "&{code}".toList [] [] rec1 = .ok "&lt;".toList ∧
+    htmlDecode "&lt;".toList = ['<'] ∧ exportPlain rec1 = "lt;".toList := by decide
+
 /-! ## Non-vacuity: the hypotheses are met by concrete non-trivial values, and the conclusions say something. -/
 
 /-- `TagSafe` holds for the witness table in the repaired variant … -/
@@ -649,5 +784,27 @@ example :
 example : isClearing (σ := Nat) (.exportText true false) = true := rfl
 example : ({} : State Nat).index = 0 ∧ ({} : State Nat).buffer = [] := ⟨rfl, rfl⟩
 example : unescape "&amp;lt;&lt;&gt;&".toList = "&lt;<>&".toList := by decide
+
+/-- format strings: a custom format with doubled braces and three fields; an unknown field; a numbered field; a single
+brace; a failing format keeps the record although `clear=True` -/
+example :
+    let rec1 : List (Segment Nat) := [{ text := ['x', '<'], style := some 1 }]
+    ConsoleFormat.exportHtmlStr Console.Variant.repaired wEnv true "{{{foreground}}}<pre>{code}</pre>".toList "#f".toList [] rec1 =
+      .ok "{#f}<pre><span style=\"font-weight: bold\">x&lt;</span></pre>".toList ∧
+    ConsoleFormat.exportHtmlStr Console.Variant.repaired wEnv true "{code}{colour}".toList [] [] rec1 = .error (.keyError "colour".toList) ∧
+    ConsoleFormat.exportHtmlStr Console.Variant.repaired wEnv true "{code}{0}".toList [] [] rec1 = .error .indexError ∧
+    ConsoleFormat.exportHtmlStr Console.Variant.repaired wEnv true "{code}}".toList [] [] rec1 = .error .valueError ∧
+    (ConsoleFormat.stepHtmlStr Console.Variant.repaired wCfg wEnv { record := rec1 } true true "{code".toList [] []).1.record = rec1 ∧
+    (ConsoleFormat.stepHtmlStr Console.Variant.repaired wCfg wEnv { record := rec1 } true true "{code}".toList [] []).1.record = [] := by
+  decide
+/-- the hypotheses of `export_html_document_format` on `<i>{foreground}</i>{code}&amp;{{` -/
+example :
+    ConsoleFormat.scan .lit "<i>{foreground}</i>{code}&amp;{{".toList =
+      (("<i>".toList.map ConsoleFormat.PItem.lit ++ [.field "foreground".toList] ++ "</i>".toList.map ConsoleFormat.PItem.lit) ++
+        [ConsoleFormat.PItem.field "code".toList] ++ "&amp;{".toList.map ConsoleFormat.PItem.lit, .done) ∧
+    (ConsoleFormat.toTemplate ("<i>".toList.map ConsoleFormat.PItem.lit ++ [.field "foreground".toList] ++
+      "</i>".toList.map ConsoleFormat.PItem.lit)).isSome = true := by decide
+example : ConsoleLogTime.logTimeCells true {} ["[1]".toList, "[1]".toList, "[2]".toList, "[1]".toList] =
+    [some "[1]".toList, some "   ".toList, some "[2]".toList, some "[1]".toList] := by decide
 
 end RichModel.C15
